@@ -113,8 +113,7 @@ class Layout:
             chars = len(b["bytes"].decode("utf-8")) if b["utf8"] else 0
             blobs.append("(%d, {| bl_utf8 := %s; bl_chars := %d; bl_bytes := %d; bl_body := %s |})" % (
                 i, "true" if b["utf8"] else "false", chars, len(b["bytes"]), body))
-        return ("{| w_fs := %s; w_cwd := %s; w_libs := %s; w_blobs := %s; w_faults := []; "
-                "w_cache_field_errors := true |}" % (
+        return ("{| w_fs := %s; w_cwd := %s; w_libs := %s; w_blobs := %s; w_faults := [] |}" % (
                     cq_list(ents), self.cq_path(self.cwd), cq_list([self.cq_comps(l) for l in self.libs]),
                     cq_list(blobs)))
 
@@ -246,23 +245,25 @@ def gen_layout(rng, idx):
     def spell(name, here):
         r = rng.below(100)
         where = sorted(p[:-1] for p in list(L.files) + [q for q, _ in phys] if p[-1] == name)
-        if r < 40:
+        mysubs = sorted(d[-1] for d in dirs if d[:-1] == here)
+        if r < 50:
             return name
-        if r < 52:
+        if r < 62:
             return "./" + name
-        if r < 60 and subdirs:
-            return rng.choice(subdirs) + "/../" + name
-        if r < 64 and subdirs:
-            return rng.choice(subdirs) + "/" + name
-        if r < 78:
-            d = rng.choice(where) if where and rng.chance(0.8) else rng.choice(dirs)
+        if r < 69:
+            sd = mysubs or subdirs
+            return (rng.choice(sd) + "/../" + name) if sd else name
+        if r < 72:
+            return (rng.choice(subdirs) + "/" + name) if subdirs else name
+        if r < 86:
+            d = rng.choice(where) if where and rng.chance(0.85) else rng.choice(dirs)
             return "/".join([".."] * len(here)) + "/" + "/".join(d) + "/" + name
-        if r < 84 and dirlink:
-            return dirlink + "/" + name
-        if r < 88:
+        if r < 92:
+            return (dirlink + "/" + name) if dirlink else name
+        if r < 95:
+            return (dirlink + "/../" + name) if dirlink else "./" + name   # `..` through a directory symlink
+        if r < 97:
             return "nosuch/../" + name
-        if r < 92 and dirlink:
-            return dirlink + "/../" + name     # `..` through a directory symlink: the target's parent
         return name
 
     def special():
@@ -303,7 +304,7 @@ def gen_layout(rng, idx):
             return ("import", spell(logical[t], here), sel)
         if r < 70 and filelink:
             return ("import", filelink, "v") if shape == "random" else None
-        if r < 84 and others:
+        if r < 86 and others:
             o = rng.choice(others + (logical[li + 1:] if rng.chance(0.3) else []))
             return (rng.choice(["importstr", "importbin"]), spell(o, here), "v")
         if r < 90:
